@@ -79,11 +79,13 @@ pub mod prelude {
     pub use alloc::borrow::ToOwned;
     pub use alloc::string::ToString;
 
-    #[cfg(not(all(test, feature = "shuttle")))]
+    // `--cfg vls_verif` (verification builds only) routes the locks through shuttle's
+    // controlled scheduler, exactly as the `shuttle` test feature does
+    #[cfg(not(any(all(test, feature = "shuttle"), vls_verif)))]
     pub use alloc::sync::{Arc, Weak};
-    #[cfg(all(test, feature = "shuttle"))]
+    #[cfg(any(all(test, feature = "shuttle"), vls_verif))]
     pub use shuttle::sync::{Arc, Mutex, MutexGuard, Weak};
-    #[cfg(all(feature = "std", not(all(test, feature = "shuttle"))))]
+    #[cfg(all(feature = "std", not(any(all(test, feature = "shuttle"), vls_verif))))]
     pub use std::sync::{Mutex, MutexGuard};
 
     #[cfg(not(feature = "std"))]
